@@ -722,4 +722,39 @@ theorem parseResponseHeaders_fst (fuel : Nat) (data : Bytes) (sc : Int) (sr : By
   | none => rw [hm] at this; simpa using this
   | some q => obtain ⟨c, r, m⟩ := q; rw [hm] at this; simp [this]
 
+/-! ### C11: the loops of the translated parser terminate
+
+  The translated counter loop of `Parser::split` runs on a fuel argument; "the C++ loop terminates" means: beyond
+  `|data| + 1` rounds the fuel is never what stops it — any two sufficient fuels give the same result.  (For an empty
+  delimiter and `maxSplit = 0` the loop does NOT terminate; every call site passes a non-empty literal.) -/
+
+/-- `Parser::split` terminates within `|data| + 1` rounds for every non-empty delimiter -/
+theorem split_terminates (f1 f2 : Nat) (data delim : Bytes) (maxSplit : Int) (parts : List Bytes)
+    (hd : delim ≠ []) (hm : 0 ≤ maxSplit) (h1 : data.length + 1 ≤ f1) (h2 : data.length + 1 ≤ f2) :
+    Parser_split f1 data delim maxSplit parts = Parser_split f2 data delim maxSplit parts := by
+  rw [split_eq f1 data delim maxSplit parts hd hm h1, split_eq f2 data delim maxSplit parts hd hm h2]
+
+/-- handling one request head terminates: the whole of `Parser::parseRequestHeaders` (three nested uses of `split`
+    and the walk over the header lines) gives the same answer for every fuel above the length of the head -/
+theorem parseRequestHeaders_terminates (f1 f2 : Nat) (data : Bytes) (method : Int) (path : Bytes) (h : HeaderMap)
+    (h1 : data.length < f1) (h2 : data.length < f2) :
+    (Parser_parseRequestHeaders f1 data method path h).1 = (Parser_parseRequestHeaders f2 data method path h).1 ∧
+    ((Parser_parseRequestHeaders f1 data method path h).1 = true →
+      Parser_parseRequestHeaders f1 data method path h = Parser_parseRequestHeaders f2 data method path h) := by
+  have e1 := parseRequestHeaders_eq f1 data method path h h1
+  have e2 := parseRequestHeaders_eq f2 data method path h h2
+  cases hp : Qhttp.Parser.parseRequestHeaders data h with
+  | none => simp only [hp] at e1 e2; simp [e1.1, e2.1]
+  | some rh => simp only [hp] at e1 e2; simp [e1, e2]
+
+/-- the same for a response head (the proxy's upstream side) -/
+theorem parseResponseHeaders_terminates (f1 f2 : Nat) (data : Bytes) (sc : Int) (sr : Bytes)
+    (h1 : data.length < f1) (h2 : data.length < f2) :
+    (Parser_parseResponseHeaders f1 data sc sr []).1 = (Parser_parseResponseHeaders f2 data sc sr []).1 := by
+  have e1 := parseResponseHeaders_eq f1 data sc sr h1
+  have e2 := parseResponseHeaders_eq f2 data sc sr h2
+  cases hp : Qhttp.Parser.parseResponseHeaders data with
+  | none => simp only [hp] at e1 e2; simp [e1, e2]
+  | some q => obtain ⟨c, r, m⟩ := q; simp only [hp] at e1 e2; simp [e1, e2]
+
 end QhttpBridge.Parser
